@@ -1061,10 +1061,27 @@ func c09r8(rc *core.RC) {
 		if cc == nil {
 			continue
 		}
-		// only clauses that refill themselves
+		// only clauses that refill themselves; a clause that ends in `fallthrough` continues in the next one
 		var retakes []*ast.CallExpr
 		refills := false
-		ast.Inspect(cc, func(m ast.Node) bool {
+		reach := []ast.Node{cc}
+		for i, cl := range d.bs.Clauses {
+			cur := cl
+			for cur == reach[len(reach)-1] && i+1 < len(d.bs.Clauses) && len(cur.Body) > 0 {
+				if br, ok := cur.Body[len(cur.Body)-1].(*ast.BranchStmt); !ok || br.Tok != token.FALLTHROUGH {
+					break
+				}
+				i++
+				cur = d.bs.Clauses[i]
+				reach = append(reach, cur)
+			}
+		}
+		inspectAll := func(f func(ast.Node) bool) {
+			for _, r := range reach {
+				ast.Inspect(r, f)
+			}
+		}
+		inspectAll(func(m ast.Node) bool {
 			if c, ok := m.(*ast.CallExpr); ok {
 				switch core.CalleeName(info, c) {
 				case "decoder.Stream.read":
